@@ -1,7 +1,12 @@
 import Oracle.Proto
-/-! Oracle suites of property C13 (registered in Oracle/Main.lean through `suites`). -/
+import Oracle.ClusterManager
+/-! Oracle suites of property C13 (executable `oracle-c13`). -/
 namespace Oracle.C13
 
-def suites : List (String × Suite) := []
+def suites : List (String × Suite) := [
+  ("cmgr", Oracle.ClusterManager.model),
+  ("cmgr-spec", Oracle.ClusterManager.spec),
+  ("cmgr-judge", Oracle.ClusterManager.judge)
+]
 
 end Oracle.C13
